@@ -3,6 +3,7 @@ import Cvss.Model.WF
 import Cvss.Spec.Rating
 import Cvss.Spec.Effective
 import Cvss.Spec.Errors
+import Driver.SpecScores
 /-!
 # Driver: score, rating and float operations
 (`F` scores, `R` rating, `U` raw float primitive). Returns `(diff?, violated ids, detail, tag)`.
@@ -62,7 +63,9 @@ def modelWf (ver : String) (l : List Nat) : Bool :=
   | "20" => (o20 l).wf | "30" => (o30 l).wf | "31" => (o31 l).wf | _ => (o40 l).wf
 
 def poison : Nat := 0x7FF8DEAD00000000
-def scoresS (xs : List Nat) : String := if xs.contains poison then "panic" else " ".intercalate (xs.map hexN)
+/-- a panic in the Go code is the poison NaN in the generated model; it propagates through float operations as a NaN
+    (no score of a well-formed object is a NaN), so any NaN among the model's results means "panics" -/
+def scoresS (xs : List Nat) : String := if xs.any (fun x => x == poison || F64.isNaN x) then "panic" else " ".intercalate (xs.map hexN)
 
 def verOf (ver : String) : Spec.Version :=
   match ver with | "20" => .v20 | "30" => .v30 | "31" => .v31 | _ => .v40
@@ -118,8 +121,59 @@ def judgeEff (ver : String) (c1 c2 : List Nat) (impl : String) : Option String Ã
     (diff, (if bad.isEmpty then [] else ["C10"]), (if bad.isEmpty then "" else s!"same effective values, different {bad}"))
   | _ => (some "BAD-IMPL-LINE", [], "")
 
+/-- is `x` (IEEE-equal to) the double nearest `k/10` for some `lo â‰¤ k â‰¤ 100` (`lo = -2` allowed for the v2
+    environmental score)? returns that `k` shifted by 2 -/
+def tenthOf (x : Nat) (allowNeg : Bool) : Option Int :=
+  match (List.range 101).find? (fun k => F64.eq x (F64.tenth k)) with
+  | some k => some k
+  | none =>
+    if allowNeg then
+      match [1, 2].find? (fun k => F64.eq x (F64.negTenth k)) with
+      | some k => some (-(k : Int))
+      | none => none
+    else none
+
+/-- hook filled by `Driver/SpecScores.lean`: expected tenths per score index (a list of admissible values), if the
+    Spec for that version is available -/
+def specTenths (ver : String) (val : List Nat â†’ List Nat) : List (List Int) :=
+  SpecScores.tenths ver val
+
+/-- `F ver obj | bitsâ€¦ [rating-rejects] gets`: correspondence (bit-exact), C11 (finite one-decimal value in range,
+    Rating accepts), C03/C04/C05 (the Spec's value) -/
+def judgeScore (ver : String) (c : List Nat) (impl : String) : Option String Ã— List String Ã— String :=
+  let ms := modelScores ver c
+  let f := impl.splitOn " "
+  let n := ms.length
+  let implScores := " ".intercalate (f.take (if impl.startsWith "panic" then 1 else n))
+  let m := scoresS ms
+  -- on byte states no API call can produce, Go evaluates every weight lookup eagerly and panics even when the result does
+  -- not depend on it; the generated model is lazy there. Only non-panicking results are compared on such states.
+  let diff := if m = implScores || (!(modelWf ver c) && impl.startsWith "panic") then none else some m
+  if !(modelWf ver c) then (diff, [], "") else
+  if impl.startsWith "panic" then (diff, ["C09", "C11"], "score panics on a well-formed object") else
+  let xs := (f.take n).map parseHexN
+  let main := if ver == "40" then 1 else 3
+  let bad11 := (List.range main).filter fun i => (tenthOf (xs.getD i 0) (ver == "20" && i == 2)).isNone
+  let rej := f.contains "rating-rejects"
+  let v11 : List String := if bad11.isEmpty && !rej then [] else ["C11"]
+  let val := fun a => modelGet ver c a
+  let want := specTenths ver val
+  let propOf := if ver == "20" then "C05" else if ver == "40" then "C04" else "C03"
+  let badSpec := (List.range (min main want.length)).filter fun i =>
+    match tenthOf (xs.getD i 0) (ver == "20" && i == 2) with
+    | some k => !((want.getD i []).contains k)
+    | none => true
+  let vSpec : List String := if want.isEmpty || badSpec.isEmpty then [] else [propOf]
+  let detail := if !bad11.isEmpty then s!"score index {bad11} is not the double nearest k/10 in range"
+    else if rej then "Rating rejects the score"
+    else if !vSpec.isEmpty then s!"score index {badSpec}: Spec wants tenths {want}" else ""
+  (diff, v11 ++ vSpec, detail)
+
 def judgeScoreOp (op : List String) (impl : String) : Option (Option String Ã— List String Ã— String Ã— String) :=
   match op with
+  | ["F", ver, c] =>
+    let r := judgeScore ver (unhex c) impl
+    some (r.1, r.2.1, r.2.2, "F" ++ ver)
   | ["M", ver, c, a, v1, v2] =>
     let r := judgeMono ver (unhex c) (unhex a) (unhex v1) (unhex v2) impl
     some (r.1, r.2.1, r.2.2, "M" ++ ver)
